@@ -2275,13 +2275,14 @@ let recv_item w q c loc =
     (n -> bool) -> n list -> n list -> n -> cval list -> cval list **)
 
 let bump_vals zst comps muts d vals =
-  map (fun pat ->
-    let (c, v) = pat in
-    if (&&) (existsb (N.eqb c) muts) (negb (zst c))
-    then ((fst v),
-           (N.add (snd v)
-             (N.mul d (N.of_nat (length (filter (N.eqb c) muts))))))
-    else v) (combine comps vals)
+  app
+    (map (fun pat ->
+      let (c, v) = pat in
+      if (&&) (existsb (N.eqb c) muts) (negb (zst c))
+      then ((fst v),
+             (N.add (snd v)
+               (N.mul d (N.of_nat (length (filter (N.eqb c) muts))))))
+      else v) (combine comps vals)) (skipn (length comps) vals)
 
 (** val write_arch : world -> query -> n -> n -> n option -> world **)
 
@@ -2775,6 +2776,22 @@ let fail_of = function
 | ROk (_, w) -> (w, None)
 | RFail (f, w) -> (w, (Some f))
 
+(** val builtin_effect : ekind -> evv -> eloc -> world -> unit res **)
+
+let builtin_effect kind ev loc w1 =
+  match kind with
+  | KNormal -> ROk ((), w1)
+  | KInsert c ->
+    rbind (traverse_insert w1 (fst loc) c) (fun d w2 ->
+      move_entity w2 loc d (Some (c, (ev.ev_ser, ev.ev_val))))
+  | KRemove c ->
+    rbind (traverse_remove w1 (fst loc) c) (fun d w2 ->
+      move_entity w2 loc d None)
+  | KSpawn -> spawn_all w1
+  | KDespawn ->
+    rbind (spawn_all w1) (fun _ w2 ->
+      rbind (remove_entity w2 loc) (fun _ w3 -> ROk ((), (refresh_cursor w3))))
+
 (** val deliver_one :
     (hinfo -> logent -> n -> script) -> qitem -> world -> (qitem
     list * world) * fail option **)
@@ -2794,27 +2811,9 @@ let deliver_one beh it w =
        then ((sent, w1), None)
        else (match kind with
              | KNormal -> ((sent, (ev_drop w1 it.qi_targeted tag ev)), None)
-             | KInsert c ->
-               let r =
-                 rbind (traverse_insert w1 (fst loc) c) (fun d w2 ->
-                   move_entity w2 loc d (Some (c, (ev.ev_ser, ev.ev_val))))
-               in
-               let (w3, f) = fail_of r in ((sent, w3), f)
-             | KRemove c ->
-               let r =
-                 rbind (traverse_remove w1 (fst loc) c) (fun d w2 ->
-                   move_entity w2 loc d None)
-               in
-               let (w3, f) = fail_of r in ((sent, w3), f)
-             | KSpawn ->
-               let (w3, f) = fail_of (spawn_all w1) in ((sent, w3), f)
-             | KDespawn ->
-               let r =
-                 rbind (spawn_all w1) (fun _ w2 ->
-                   rbind (remove_entity w2 loc) (fun _ w3 -> ROk ((),
-                     (refresh_cursor w3))))
-               in
-               let (w3, f) = fail_of r in ((sent, w3), f)))
+             | _ ->
+               let (w3, f) = fail_of (builtin_effect kind ev loc w1) in
+               ((sent, w3), f)))
   in
   if it.qi_targeted
   then (match get_by_index w.w_tev it.qi_idx with
